@@ -1,6 +1,10 @@
 import RedisVerif.Driver.Codec
 import RedisVerif.Props.C03
 import RedisVerif.Model.ShardsClock
+import RedisVerif.Model.Shards7
+import RedisVerif.Model.Script7
+import RedisVerif.Model.Dispatch
+import RedisVerif.Driver.C01
 
 /-
   C03 sub-driver (stateful): the sharding layer over the small concrete executor.
@@ -11,6 +15,15 @@ import RedisVerif.Model.ShardsClock
     TNEW <N> <carries: 7 × 0/1> <n> (<key> <rs|-> <rb>)*   → ok   timed stream (per-shard clocks, expiry);
           carries = which message kinds (generic fastGet fastSet pooledGet pooledSet batchGet batchSet) carry the time
     T <now-ms> SET|SETPX|SETEX|GET|EXISTS|DBSIZE|FGET|PGET|FSET|PSET|BGET|BSET|MGET|MSET args…  → canonical reply
+    ENTRYPOINTS                                     → the model's table of mailbox-reaching entry points (`Model/Dispatch.lean`)
+    DISPATCH                                        → the entry points the connection handler dispatches into
+    M7NEW <N> <n> (<key> <route>)*                  → ok     the sharding model over the M7 REFERENCE executor
+          (`Model/Shards7.lean`: every command of `Model/Redis.lean`, per-shard sweeps = set_time)
+    M7 <now-ms> <OP args… in the C01 line syntax>   → reply in the C01 reply syntax (KEYS sorted)
+    M7S <now-ms> <id> <nk> <key>* <na> <arg>* <nf> <field>*   → reply of script <id> of `Redis.scriptCatalog`
+          (EVAL: ONE message to the shard of KEYS[1], the whole script runs there: `M7.execScript7`)
+    M7EVICT <now-ms>                                → evict    (the TTL tick: every shard adopts the time)
+    M7DUMP <now-ms>                                 → visible keyspace (C01 dump syntax) | keys=[what KEYS * lists]
 -/
 namespace RedisVerif.Driver.C03
 open RedisVerif RedisVerif.Driver RedisVerif.Shards RedisVerif.Shards.Str
@@ -27,6 +40,8 @@ structure DState where
   /-- the script cache(s): node-global state next to the keyspace -/
   cache : NSet := []
   priv : List NSet := []
+  /-- the M7 instance: per-shard stores of M7 entries -/
+  st7 : Shards Redis.Entry := []
 
 def DState.init : DState := { R := Routes.ofTable 1 [], fixed := true, st := [[]], utf8 := [] }
 
@@ -36,6 +51,7 @@ def showR1 : R1 → String
   | .int i => s!"i:{i}"
   | .bulk b => s!"b:{hexOfBytes b}"
   | .err c => s!"e:{c}"
+  | .ext _ => "ext"
 
 /-- insertion sort on key codes (canonical order of unordered replies) -/
 def sortNat (l : List Nat) : List Nat :=
@@ -78,6 +94,8 @@ def parseCmd : P (Cmd sig) := do
   | "ESSET" => kv .set
   | "EINCR" => k1 .incr
   | "ESINCR" => k1 .incr
+  -- a multi-call read-modify-write script (GET, +1 in Lua, SET): an increment iff it is one atomic step
+  | "XINCR" => k1 .incr
   | "SETNX" => kv .setnx
   | "APPEND" => kv .append
   | "STRLEN" => k1 .strlen
@@ -205,8 +223,79 @@ def dump (d : DState) (withFast : Bool) : String :=
     else s!"{showKey k} - - {fast}")
   " ".intercalate (toString all.length :: per.map (· ++ " ;"))
 
+def parseM7New : P (Nat × List (Nat × Nat)) := do
+  expect "M7NEW"
+  let n ← nat
+  let m ← nat
+  let tbl ← repeatP m (do let k ← strKey; let r ← nat; pure (k, r))
+  pure (n, tbl)
+
+def parseM7S : P (Nat × Nat × List Nat × List Bytes × List Nat) := do
+  expect "M7S"
+  let now ← nat
+  let id ← nat
+  let nk ← nat
+  let ks ← repeatP nk strKey
+  let na ← nat
+  let as ← repeatP na bytesTok
+  let nf ← nat
+  let fs ← repeatP nf strKey
+  pure (now, id, ks, as, fs)
+
+def parseM7 : P (Nat × Redis.Cmd) := do
+  expect "M7"
+  let now ← nat
+  let c ← C01.cmd
+  pure (now, c)
+
+/-- a sharding-layer reply over M7 in the C01 reply syntax; the elements of a KEYS reply in key order -/
+def showReply7 (c : Redis.Cmd) (r : Reply) : String :=
+  match r with
+  | .keys l => C01.showReply (.arr ((sortNat l).map Redis.Elem.key))
+  | r =>
+    match M7.toM7 r with
+    | some x => C01.showReply (C01.canonReply c x)
+    | none => "unmapped:" ++ showReply r
+
 def step (d : DState) (line : String) : DState × String :=
   match tokens line with
+  | ["ENTRYPOINTS"] => (d, ",".intercalate entryPointNames)
+  | ["DISPATCH"] => (d, ",".intercalate dispatchTargets)
+  | "M7NEW" :: _ =>
+    match runP parseM7New line with
+    | some (n, tbl) =>
+      let t : NMap (Nat × Nat) := NMap.ofList (tbl.map (fun e => (e.1, (e.2, e.2))))
+      ({ d with R := Routes.ofTable n t, st7 := Shards.init Redis.Entry n }, "ok")
+    | none => (d, "bad-op")
+  | ["M7EVICT", now] =>
+    match now.toNat? with
+    | some t => ({ d with st7 := M7.sweep (fun _ => true) t d.st7 }, "evict")
+    | none => (d, "bad-op")
+  | ["M7DUMP", now] =>
+    match now.toNat? with
+    | some t =>
+      -- what KEYS * lists (every shard, after adopting the time), and what a client reads of each
+      -- key through a routed command (the key's HOME shard only)
+      let all := sortNat ((M7.sweep (fun _ => true) t d.st7).flatMap NMap.keys)
+      let home : Redis.State := (dedupSorted (sortNat (d.st7.flatMap NMap.keys))).filterMap (fun k =>
+        (NMap.get (shard d.st7 (d.R.bytes k)) k).map (fun e => (k, e)))
+      (d, C01.showDump home t ++ " | keys=" ++ "[" ++ ",".intercalate (all.map showKey) ++ "]")
+    | none => (d, "bad-op")
+  | "M7S" :: _ =>
+    match runP parseM7S line with
+    | some (now, id, ks, as, fs) =>
+      match Redis.scriptCatalog id ks as fs, ks with
+      | some p, k :: _ =>
+        let r := M7.execScript7 d.R now d.st7 k p
+        ({ d with st7 := r.1 }, showReply7 (.get k) r.2)
+      | _, _ => (d, "bad-op")
+    | none => (d, "bad-op")
+  | "M7" :: _ =>
+    match runP parseM7 line with
+    | some (now, c) =>
+      let r := M7.execNT7code d.R now d.st7 c
+      ({ d with st7 := r.1 }, showReply7 c r.2)
+    | none => (d, "bad-op")
   | "NEW" :: _ =>
     match runP parseNew line with
     | some (n, f, tbl) =>
